@@ -475,6 +475,15 @@ func (e *SpecEnv) call(n *SCall, old bool) Term {
 		a := args()
 		fn := map[string]string{"u64At": "be64", "u32At": "be32", "u16At": "be16"}[n.Fn]
 		return Term{S: fmt.Sprintf("(%s (select %s (s-obj %s)) (+ (s-off %s) %s))", fn, e.byteHeap(old), a[0].S, a[0].S, a[1].S), Sort: "Int"}
+	case "arr":
+		// the whole backing array of a byte slice (as a value), e.g. as an argument of an uninterpreted spec function
+		need(1)
+		a := args()[0]
+		return Term{S: fmt.Sprintf("(select %s (s-obj %s))", e.byteHeap(old), a.S), Sort: "(Array Int Int)"}
+	case "asTime":
+		need(1)
+		a := args()[0]
+		return Term{S: a.S, Sort: "Int", GT: e.tx.timeType()}
 	case "abs":
 		need(1)
 		a := args()[0]
